@@ -117,12 +117,13 @@ impl RdfStore {
             }
         }
 
-        // Insert into primary storage
-        {
-            let mut triples = self.triples.write();
-            if !triples.insert(Arc::clone(&triple)) {
-                return false;
-            }
+        // Insert into primary storage. The write guard is held until the
+        // indexes are updated as well: a concurrent remove of the same triple
+        // running between the two would leave the triple in the indexes only
+        // (lock order: triples, subject, predicate, object index).
+        let mut triples = self.triples.write();
+        if !triples.insert(Arc::clone(&triple)) {
+            return false;
         }
 
         // Update indexes
@@ -159,13 +160,10 @@ impl RdfStore {
     ///
     /// Returns `true` if the triple was found and removed.
     pub fn remove(&self, triple: &Triple) -> bool {
-        // Remove from primary storage
-        let removed = {
-            let mut triples = self.triples.write();
-            triples.remove(triple)
-        };
-
-        if !removed {
+        // Remove from primary storage; the write guard is held until the
+        // indexes are updated as well (see insert)
+        let mut triples = self.triples.write();
+        if !triples.remove(triple) {
             return false;
         }
 
@@ -344,7 +342,8 @@ impl RdfStore {
 
     /// Clears all triples from the store.
     pub fn clear(&self) {
-        self.triples.write().clear();
+        let mut triples = self.triples.write();
+        triples.clear();
         self.subject_index.write().clear();
         self.predicate_index.write().clear();
         if let Some(ref mut idx) = *self.object_index.write() {
